@@ -661,3 +661,6 @@ def check(run, prog):
     rule_pop_counts(run, prog)
     rule_tables(run, prog)
     rule_parsers(run, prog)
+    # a stale cache of anything derived from the cursor shows the sub-parsers a character that is no longer there
+    from .c12 import rule_position_caches
+    rule_position_caches(run, prog, "R-10.7")
